@@ -295,8 +295,9 @@ def do_prop(a):
         },
         "assumptions": getattr(pm, "ASSUMPTIONS", []) + ASSUMPTIONS_COMMON,
     }
-    os.makedirs(os.path.join(ROOT, "evidence"), exist_ok=True)
-    json.dump(ev, open(os.path.join(ROOT, "evidence", prop + ".json"), "w"), indent=1, default=str)
+    evdir = os.environ.get("VERIF_EVIDENCE_DIR") or os.path.join(ROOT, "evidence")
+    os.makedirs(evdir, exist_ok=True)
+    json.dump(ev, open(os.path.join(evdir, prop + ".json"), "w"), indent=1, default=str)
 
     for ln in lines:
         print(ln)
